@@ -69,7 +69,7 @@ def quick_corpus():
     c.append(tok("lsn", s=1, fs=1, via="geqdsk", wall={"kind": "slant", "cw": True}, tag="lsn-geqdsk-cw"))
     # strongly unequal legs (C08) -- long outer leg, long inner leg
     c.append(tok("lsn", s=1, fs=1, tag="lsn-long-outer", ny_inner_divertor=2, ny_outer_divertor=9, ny_sol=4))
-    c.append(tok("usn", s=1, fs=1, tag="usn-long-inner", ny_inner_divertor=9, ny_outer_divertor=2, ny_sol=4, guards=2))
+    c.append(tok("usn", s=1, fs=1, tag="usn-long-inner", ny_inner_divertor=8, ny_outer_divertor=3, ny_sol=4, guards=2, wall="box"))
     c.append(circ())
     return c
 
